@@ -149,7 +149,7 @@ P['C17']={
  "functions":[I+"LocalConfigFile.Validate",I+"mergeAndValidateOIDCConfigs",I+"applyOIDCDefaults",I+"validateURLs",I+"validateOIDCConfigURLs",I+"validateURL",I+"hasRootPath",I+"isRootPath"],
  "sweep":["internal.init"],
  "panics":True,
- "required":[I+"LocalConfigFile.Validate:post:typed", I+"LocalConfigFile.Validate:post:resolved", I+"LocalConfigFile.Validate:post:openid", I+"mergeAndValidateOIDCConfigs:post:openid", I+"mergeAndValidateOIDCConfigs:post:no_override", I+"mergeAndValidateOIDCConfigs:pre@call:applyOIDCDefaults.config_nonnil", I+"applyOIDCDefaults:post:openid", I+"validateURLs:post:callbacks", I+"mergeAndValidateOIDCConfigs:panic:"],
+ "required":[I+"LocalConfigFile.Validate:post:typed", I+"LocalConfigFile.Validate:post:resolved", I+"LocalConfigFile.Validate:post:openid", I+"mergeAndValidateOIDCConfigs:post:openid", I+"mergeAndValidateOIDCConfigs:post:logout_paths", I+"LocalConfigFile.Validate:post:logout_paths", I+"mergeAndValidateOIDCConfigs:post:no_override", I+"mergeAndValidateOIDCConfigs:pre@call:applyOIDCDefaults.config_nonnil", I+"applyOIDCDefaults:post:openid", I+"validateURLs:post:callbacks", I+"mergeAndValidateOIDCConfigs:panic:"],
  "note":"loading never panics (every instruction that can panic in Validate and its helpers, for any well-formed protojson tree); accepted implies every filter has a type, the openid scope is present, callback URIs parse and are not root; the generated ValidateAll and proto.Clone/Merge are trusted contracts"}
 RG="oidc.randomGenerator."
 P['C06']={
